@@ -95,6 +95,12 @@ pub fn shard_evict(def: &E2Def, tier: &str, seed: u64, shard: u32, programs: u32
             case.ops = ops;
             *stats.entry("rotation_storm_programs".into()).or_insert(0) += 1;
         }
+        // every eighth program: several keyspaces in one sealed journal, one deleted, one lagging
+        if pi % 8 == 3 {
+            let sc = crate::scenario::deleted_watermark(case_hash(&(seed, shard, pi, 0xde1u32)));
+            case = sc.case;
+            *stats.entry("deleted_watermark_programs".into()).or_insert(0) += 1;
+        }
         // one more write into every keyspace, so that "every keyspace was flushed" really involves a
         // flush of each (an empty memtable is not rotated, and journal maintenance only runs on
         // rotation / after a flush); separate operations keep the prefix model exact
